@@ -16,7 +16,7 @@ for mid in ids:
     res = {'id': mid}
     try:
         demo = open(d + '/demo_test.go').read()
-        m = re.search(r'go test[^\n]*?\./((?:starlark|lib/\w+|internal/\w+|resolve|syntax|starlarkstruct))/?', demo)
+        m = re.search(r'go test[^\n]*?\./((?:starlarkstruct|starlark|lib/\w+|internal/\w+|resolve|syntax))/?', demo)
         pkgdir = (m.group(1).rstrip('/') if m else 'starlark')
         mrun = re.search(r'-run\s+[\'"]?([A-Za-z0-9_|^$.*()]+)', demo)
         run = mrun.group(1) if mrun else '.'
